@@ -212,6 +212,22 @@ def check (c):
         judge ('E.repeat', np.linalg.norm (Ec - E) / np.linalg.norm (E), 0.01, 'E at %s, asked again after a request with another power level, deviates from the field of the solved currents' % (np.round (x, 4),), key = 'near-E')
         judge ('H.repeat', np.linalg.norm (Hc - H) / np.linalg.norm (H), 0.01, 'H at %s, asked again after a request with another power level, deviates from the field of the solved currents' % (np.round (x, 4),)
               , key = 'near-H-band-1-to-1.5-segments' if tuple (np.round (x, 9)) in band_pts and np.linalg.norm (Hc - H) / np.linalg.norm (H) <= 0.013 else 'near-H')
+    # ---- a request written with whole numbers only (API: python ints for start, increment and count) is the
+    # same request as with floats: the field of the solved currents at those points
+    for kind, x, E, H in refs [:2]:
+        xi = [int (v) for v in np.round (x)]
+        if nfref.min_distance (m, np.array (xi, float)) < 1.0:
+            continue
+        Ei, Hi = nfref.fields (m, np.array (xi, float), 8)
+        common.guarded (lambda: m.compute_near_field (xi, [2, 1, 1], [1, 1, 1]), 'compute_near_field')
+        Ec, Hc = np.asarray (m.e_field [0]), np.asarray (m.h_field [0])
+        dist = nfref.min_distance (m, np.array (xi, float))
+        # (on the axis of a straight antenna the magnetic field vanishes: compared on the scale of E / 376.7 ohm)
+        dH = np.linalg.norm (Hc - Hi) / max (np.linalg.norm (Hi), 1e-3 * np.linalg.norm (Ei) / 376.73)
+        judge ('E.int', np.linalg.norm (Ec - Ei) / np.linalg.norm (Ei), 0.01, 'E at %s (request in whole numbers) deviates from the field of the solved currents' % (xi,), key = 'near-E')
+        judge ('H.int', dH, 0.01, 'H at %s (request in whole numbers) deviates %.3g from the field of the solved currents' % (xi, dH)
+              , key = 'near-H-band-1-to-1.5-segments' if (dist < 1.5 and 0.01 < dH <= 0.013) else 'near-H')
+        break
     # ---- the same object at another frequency: the field of the new currents at the new wavelength
     if refs and not viol:
         kind, x, E, H = refs [0]
